@@ -3,7 +3,7 @@ import random, re
 from common import *
 
 ID = "C13"
-THEOREM_FILES = ["Summer.Props.C13", "Summer.Props.C13Source"]
+THEOREM_FILES = ["Summer.Props.C13", "Summer.Props.C13Source", "Summer.Props.C08Source"]
 TASK = "task"
 RULE = ("stratified models (1-3 stratifications, full and partial; flow names shared between entry, exit and transition flows in a third of the "
         "models); filtered raw flow outputs and compartment outputs of a solved model vs sums over brute-force selected flow-rate / state columns; "
